@@ -24,7 +24,9 @@ structure PBuf where
 deriving Repr, Inhabited
 
 /-- a scripted `io.Reader`: a payload and a list of responses `(max, errcode)`;
-    errcode 0 = nil, 1 = io.EOF, ≥ 2 = a reader error.  A response never yields `(0, nil)`. -/
+    errcode 0 = nil, 1 = io.EOF, ≥ 2 = a reader error.  A response may yield `(0, nil)`
+    (response `(0, 0)`, or code 0 with the payload exhausted): "nothing happened", the
+    caller simply calls `Read` again. -/
 structure Reader where
   payload : List Byte
   resps : List (Nat × Nat)
@@ -41,8 +43,7 @@ def Reader.read (r : Reader) (sz : Nat) : Reader × List Byte × Nat :=
   | [] => (r, [], 1)
   | (mx, e) :: rest =>
     let n := min3 mx sz r.payload.length
-    let e' := if n = 0 ∧ e = 0 then 1 else e
-    ({ payload := r.payload.drop n, resps := rest }, r.payload.take n, e')
+    ({ payload := r.payload.drop n, resps := rest }, r.payload.take n, e)
 
 namespace PBuf
 
@@ -95,10 +96,10 @@ def readLoop (b : PBuf) (r : Reader) : PBuf × Reader × Err :=
         | (mx, ec) :: rest =>
           let sz := e - b'.data.length
           let n := min3 mx sz r.payload.length
-          let ec' := if n = 0 ∧ ec = 0 then 1 else ec
           let r' : Reader := { payload := r.payload.drop n, resps := rest }
           let b'' := { b' with data := b'.data ++ r.payload.take n }
-          if ec' ≠ 0 then (b'', r', errOfCode ec')
+          -- `if err != nil { break }`: a nil error always continues, also with `n = 0`
+          if ec ≠ 0 then (b'', r', errOfCode ec)
           else readLoop b'' r'
 termination_by r.resps.length
 decreasing_by simp [hr]
